@@ -11,9 +11,10 @@ git diff -- smpl_extract > "$out/patch.diff"
 cp _out/demo.py "$out/demo.py"; cp _out/notes.md "$out/notes.md" 2>/dev/null
 tests_with=$(/venv/bin/python -m pytest -q -p no:cacheprovider tests 2>&1 | tail -1)
 /venv/bin/python _out/demo.py > "$out/demo_with.txt" 2>&1; demo_with=$?
-git stash -q
+# (git stash is shared by all worktrees of a repository: never use it here)
+git apply -R --whitespace=nowarn "$out/patch.diff"
 /venv/bin/python _out/demo.py > "$out/demo_without.txt" 2>&1; demo_without=$?
-git stash pop -q
+git apply --whitespace=nowarn "$out/patch.diff"
 echo "tests with change: $tests_with"
 echo "demo exit with change: $demo_with ; without: $demo_without"
 res=$(/verif/tools/seed_eval.sh "$out/patch.diff" quick $ids 2>&1)
